@@ -8,7 +8,7 @@ from engine.spec import fn
 S_ = 'lib/snr.cpp'
 A = 'dsplib::(anon)::'
 
-fn(A + '_left_descent', S_, serves=['C19', 'C05'], pure=True,
+fn(A + '_left_descent', S_, serves=['C19', 'C05'], pure=True, only_tu=True,
    requires=[('nonempty', 'And(spec.len >= 1, idx < spec.len)')], throws='False',
    lets={'i0': 'If(idx > 0, idx, 0)'},
    ensures=[('range', 'And(0 <= result, result <= i0)'),
@@ -18,7 +18,7 @@ fn(A + '_left_descent', S_, serves=['C19', 'C05'], pure=True,
                       ('run', 'forall(lambda j: Implies(And(lpos < j, j <= i0), spec[j - 1] < spec[j]))')],
               'dec': 'lpos'}})
 
-fn(A + '_right_descent', S_, serves=['C19', 'C05'], pure=True,
+fn(A + '_right_descent', S_, serves=['C19', 'C05'], pure=True, only_tu=True,
    requires=[('nonempty', 'And(spec.len >= 1, idx >= 0)')], throws='False',
    lets={'i0': 'If(idx < spec.len - 1, idx, spec.len - 1)'},
    ensures=[('range', 'And(i0 <= result, result <= spec.len - 1)'),
